@@ -190,3 +190,14 @@ PLANS["C17"] = dict(
     clauses={"1 minus vertex average of products of per-motif failure probabilities at the fixed point reached from 0.5": "bounded (independent sweep, finite iterations)", "in [0,1], 0 at phi=0, non-decreasing": "bounded (grid)",
              "repeated queries in any order equal fresh objects": "structural sufficient condition discharged + bounded histories"},
     not_decided=["analytic clauses beyond the corpus and the grid; convergence of the iteration"])
+
+PLANS["C09"] = dict(
+    level="exploration", bounded="c09",
+    modules=[dict(name="eecc")],
+    technique="bounded (labelled stand-in): run-time postconditions of the real get_EECC over every labelled graph on <= 5 vertices, sampled larger graphs, all size bounds and every tie-break path; the program-logic nuggets (binom as called, Network.remove_edge) are verified deductively",
+    level_text="The exact-cover argument needs graph theory (maximal cliques, decomposition into m0-subsets, recomputation after every removal) that the installed solvers cannot carry for this code, so the deciding check is a bounded exploration with a stated bound; binom(n, 2) == n(n-1)/2 and remove_edge (removes if present, silent otherwise, nothing else changes) are proved for all inputs.",
+    level_note="Bound: all labelled graphs on <= 5 vertices without isolated vertices, seeded graphs on 6-9 (10) vertices incl. disjoint unions of overlapping cliques, m0 in 2..n+1, every outcome of random.choice by DFS (cap 60/400 paths per input), read-only-query-then-cover histories. Termination of the greedy loop is not claimed.",
+    explanation="BOUNDED: every returned set is a clique of the input with 2..m0 vertices, every input edge in exactly one, no edge left in the working graph, maximal cliques of size <= m0 that share no edge with another maximal clique returned intact -- for every tie-break path. PROVED: binom:n_choose_2 (loop invariant by trip count + parity hint), Network.remove_edge (removed, others_untouched, silent_when_absent).",
+    clauses={"edge-disjoint exact cover by cliques of 2..m0 vertices; no edges left": "bounded (all labelled graphs <= 5 vertices, every tie-break path)", "isolated maximal cliques intact": "bounded",
+             "edge removal ignores missing edges": "proved (Network.remove_edge)", "binom(order, 2)": "proved"},
+    not_decided=["graphs beyond the bound; termination"])
